@@ -9,7 +9,7 @@ RULE = ("Hypothesis draws RunSpecs weighted towards max tasks, multi-objective w
         "the checker re-evaluates the objective itself from the position and from transform_solution(position) on "
         "a twin task, and recomputes the documented fitness from the reported cost (equality, tolerance 1e-9 rel. "
         "for cost, 1e-12 for fitness). Non-trivial = completed run with >= 2 distinct costs and one of {max task, "
-        "multi-objective, a negative cost, an integer-coded variable}; distinct = SHA-256 of the spec.")
+        "multi-objective, a negative cost, an integer-coded variable}; distinct = SHA-256 of the spec. About 15 % of the cases make the judged run on an optimizer instance that has already been used for an optimize() call on another task (reused instance).")
 ASSUMPTIONS = ["objective families in harness/oracles.py are the trusted ground truth (independent of the library)",
                "agents that are not members of the search space are C01's business and skipped here (counted)",
                "runs that raise are C06's business"]
